@@ -10,9 +10,11 @@ Property theorems only.  Two models:
 Both are the executable objects the correspondence runs use (`drv_c09`).
 
 What is NOT a theorem here (compared only, see checks/c09.py and `DoraModel/Wait/MtxCheck.lean`): the
-no-lost-wake-up invariants J / S / W of DESIGN A.3 are evaluated on every model state reached while accepting
-the traces of the real code, but their inductive proofs are not done (`no_lost_wakeup` is therefore absent;
-`notify_without_waiter_no_effect`, `mutual_exclusion`, `join_after_stop` are proved).  Atomic exchange /
+no-lost-wake-up invariants J (mutex) and S (signal) of DESIGN A.3 and the queue/flag consistency Q are
+evaluated on every model state reached while accepting the traces of the real code, but their inductive proofs
+are not done (a theorem `no_lost_wakeup` for the mutex is therefore absent).  Proved: `mutual_exclusion`,
+`lock_word_free_iff`, `join_after_stop`, `notify_without_waiter_no_effect`, and W for the condition
+(`condition_waiters_cover_queue`).  Atomic exchange /
 compare-exchange / fetch-add are single steps of the model by construction (their indivisibility in compiled
 code rests on C07's `lock`-prefixed encodings).
 -/
@@ -210,6 +212,32 @@ theorem notify_without_waiter_no_effect {t : Nat} {s' : State} {a : Act} :
     cases a <;> simp [stepAt, hq] at h
     all_goals (first | exact Or.inl h.symm | exact Or.inr h.symm | skip)
 
+/-- "a thread that waits on a condition is woken by a notification issued after it started waiting (no lost
+wake-up)", the part that is about the `waiters` word (invariant W of DESIGN A.3): in every reachable state
+(without a failed assertion) a non-empty condition queue — some thread has completed `enqueue` — is covered
+by `waiters ≠ 0`, so that every `notify_one` / `notify_all` that starts now reads a non-zero word and goes to
+the wait table (where `wk1` pops the head of the queue, clears its flag and signals it; `wakeup_all` does so
+until the queue is empty), or by a `notify_all` that is between its `waiters.set(0)` and the end of its
+sweep, which wakes every queued thread.  `notify_one` reads `waiters` without the wait-table lock and
+`notify_all` resets it before taking the lock; the theorem says these races lose nobody.
+NOT proved (evaluated on every state of every accepted real trace instead, `MtxCheck.lean`): that the
+signalled thread then leaves `cv_blocking.wait` (invariant S) and the analogous statement J for the mutex. -/
+theorem condition_waiters_cover_queue (hr : Reach n s) (hnp : ∀ (t : Nat) (b : Bool), s.pcs[t]? ≠ some (PC.panicked b))
+    (hq : s.cq ≠ []) :
+    s.cw ≠ 0 ∨ ∃ (t : Nat) (pc : PC), s.pcs[t]? = some pc ∧ inFlightNotifyAll pc = true := by
+  have hz : s.pcs.countP isPanicked = 0 := by
+    rw [List.countP_eq_zero]
+    intro a ha hp
+    obtain ⟨t, ht⟩ := List.getElem?_of_mem ha
+    cases a <;> simp [isPanicked] at hp
+    exact hnp t _ ht
+  have h := (hr.cinv hz).w (List.length_pos_iff.mpr hq)
+  rcases h with h | h
+  · exact Or.inl (by omega)
+  · obtain ⟨pc, hmem, hp⟩ := List.countP_pos_iff.mp h
+    obtain ⟨t, ht⟩ := List.getElem?_of_mem hmem
+    exact Or.inr ⟨t, pc, ht, hp⟩
+
 /-! ### non-vacuity: a concrete run of the model (two threads contend for the mutex; the loser queues,
 sleeps, is popped and signalled by the owner's `unlock_op`, and acquires with `0→2`) -/
 
@@ -249,6 +277,21 @@ example : ∃ s, Reach 2 s ∧ s.pcs[0]? = some (PC.jn1 .idle 1 false) := by
     have : (runTrace (init 2) joinTrace).map (fun s => s.pcs[0]?) = some (some (PC.jn1 .idle 1 false)) := by decide
     rw [h] at this; simp at this
     exact ⟨s, Reach.init.run _ h, this⟩
+
+def condTrace : List Event := [
+  ⟨0, .call .lock⟩, ⟨0, .casW 0 (some 1)⟩, ⟨0, .call .cwait⟩,
+  ⟨0, .lockWL⟩, ⟨0, .storeCW 1⟩, ⟨0, .lockB 0⟩, ⟨0, .unlockB 0⟩, ⟨0, .unlockWL⟩,   -- enqueue
+  ⟨1, .call .nall⟩, ⟨1, .loadCW 1⟩, ⟨1, .storeCW 0⟩ ]                               -- notify_all in flight
+
+/-- hypotheses of `condition_waiters_cover_queue` on a reachable state in which the SECOND disjunct is the
+one that holds: thread 0 is queued on the condition, thread 1's `notify_all` has already reset `waiters` -/
+example : ∃ s, Reach 2 s ∧ s.cq = [0] ∧ s.cw = 0 ∧ s.pcs[1]? = some (PC.wk0 .cond true .idle) := by
+  cases h : runTrace (init 2) condTrace with
+  | none => exact absurd h (by decide)
+  | some s =>
+    have : (runTrace (init 2) condTrace).map (fun s => (s.cq, s.cw, s.pcs[1]?)) = some ([0], 0, some (PC.wk0 .cond true .idle)) := by decide
+    rw [h] at this; simp at this
+    exact ⟨s, Reach.init.run _ h, this.1, this.2.1, this.2.2⟩
 
 /-- hypothesis of `notify_without_waiter_no_effect`: `notify_one` on the fresh condition returns at once -/
 example : (stepAt (init 1) 0 (PC.no0 .idle) (.loadCW 0)).toOption = some ((init 1).setPc 0 .idle) := by decide
